@@ -142,10 +142,10 @@ PROPS = {
         "not_decided": "eval(repr(x)) == x.",
     },
     "C19": {
-        "rules": ["G7", "A1", "A2", "A3", "G3", "G2", "T5", "G13"],
+        "rules": ["G7", "A1", "A2", "A3", "G3", "G2", "T5", "G13", "K4"],
         "decides": "Maybe[] dropped only for required-or-defaulted; leaf annotations agree with the type validator "
                    "and construct; union/list annotations draw from every contributing element; the composition "
-                   "result comes from an element the annotation drew from.",
+                   "result comes from an element the annotation drew from; an omitted property reaches its declared element (and so its default) under its JSON name (K4).",
         "not_decided": "soundness for arbitrary nestings as a whole.",
     },
     "C20": {
